@@ -68,9 +68,42 @@ def flip_calls(fn, tracer_cls_names):
                 yield n
 
 
+def _records_every_evaluation(ctx, repo) -> None:
+    """A predicate callback reaches _update_metrics for every evaluation it is told about: an early `return` is one
+    of the enumerated, reasoned exceptions - anything else makes the recording depend on what happened earlier in
+    the execution (e.g. on an exception a previous evaluation raised)."""
+    TRM = "pynguin.instrumentation.tracer"
+    n = 0
+    for name in ("executed_compare_predicate", "executed_bool_predicate", "executed_in_presence_predicate", "executed_exception_match"):
+        fn = repo.try_func(TRM, f"ExecutionTracer.{name}")
+        if fn is None:
+            continue
+        ctx.analysed(fn)
+        params = {a.arg for a in fn.args.args}
+        sinks = [c for c in own_nodes(fn) if isinstance(c, ast.Call) and norm(c.func) == "self._update_metrics"]
+        n += 1
+        ctx.check("C05.record", fn, bool(sinks), f"{name} no longer records its evaluation (no _update_metrics call)", what=f"{name} records", stmt=f"[{name}] records")
+        for r in [x for x in own_nodes(fn) if isinstance(x, ast.Return)]:
+            conds = []
+            p = parent(r)
+            while p is not None and p is not fn:
+                if isinstance(p, ast.If):
+                    conds.append(p.test)
+                p = parent(p)
+            text = " and ".join(norm(c) for c in conds)
+            iterator_guard = any(isinstance(c, ast.Call) and norm(c.func) == "isinstance" and len(c.args) == 2 and norm(c.args[0]) in params and "Iterator" in norm(c.args[1]) for t in conds for c in ast.walk(t))
+            stateful = any(isinstance(x, ast.Attribute) and norm(x).startswith("self.") for t in conds for x in ast.walk(t))
+            n += 1
+            ctx.check("C05.record", r, iterator_guard and not stateful, f"{name} returns without recording under `{text[:90]}`: the evaluation is not reported" + (" - and the condition reads state of the tracer, so what is recorded depends on what happened earlier in the execution (an exception raised by a previous evaluation, for instance)" if stateful else ""), what=f"{name}: early return only for one-shot iterators", stmt=f"[{name}] return under {text[:50]}")
+    if n == 0:
+        raise AnalysisError("C05.record: no predicate callback found")
+
+
 def check(ctx) -> None:
     repo = ctx.repo
     ctx.rule("C05.ctx", "PAIR-FINALLY: after a flip of the tracer flag every path to any exit (incl. exceptional and GeneratorExit at yield) passes the inverse flip", floor=2)
+    ctx.rule("C05.record", "every predicate callback reaches _update_metrics; an early return is allowed only under the one-shot-iterator guard on its operand and never under a condition that reads tracer state", floor=5)
+    _records_every_evaluation(ctx, repo)
     ctx.rule("C05.raw", "WHO-MAY: raw <tracer>.enable()/.disable() occurs only in paired regions or in the enumerated forwarders", floor=3)
     ctx.rule("C05.writers", "WHO-MAY: TracerLocalState.enabled is assigned only by __init__/enable/disable/state setter", floor=4)
     ctx.rule("C05.cm-use", "temporarily_disable()/temporarily_enable() are only used as `with` items or ExitStack.enter_context arguments", floor=8)
